@@ -2,6 +2,7 @@ package props
 
 import (
 	"bytes"
+	"io"
 	"encoding/hex"
 	"fmt"
 
@@ -83,7 +84,7 @@ func decodeObs(path string, recv interface{}, in []byte) (class string, left int
 		return "ok", len(rest)
 	}
 	br := bytes.NewReader(in)
-	rd := msgp.NewReader(br)
+	rd := msgp.NewReader(onlyReader{br})
 	if p := safely(func() { err = recv.(msgp.Decodable).DecodeMsg(rd) }); p != nil {
 		return "panic", 0
 	}
@@ -102,6 +103,11 @@ func decodeMsgObs(mode, path string, recv codecMsg, in []byte) (obs string, dec 
 	dec = gen.MsgFromGo(recv)
 	return fmt.Sprintf("ok(%s;left=%d)", dec.Render(false), left), dec, left
 }
+
+// onlyReader hides bytes.Reader's Seek method: stream sources are modelled as
+// non-seekable (like a net.Conn).  With a seekable source fwd.Reader.Skip seeks past the
+// end of the data without an error.
+type onlyReader struct{ io.Reader }
 
 var paths = []string{"slice", "stream"}
 
